@@ -157,6 +157,17 @@ func (p *Report) Violation(key, what string, witness interface{}) {
 // NViolations returns the number of distinct violation keys so far.
 func (p *Report) NViolations() int { p.mu.Lock(); defer p.mu.Unlock(); return len(p.viol) }
 
+// NViolationEvents returns the number of times a violation was recorded (repetitions of one key included).
+func (p *Report) NViolationEvents() int {
+	p.mu.Lock()
+	defer p.mu.Unlock()
+	n := 0
+	for _, v := range p.viol {
+		n += v.Count
+	}
+	return n
+}
+
 // Inconclusive records an inconclusive sub-verdict.
 func (p *Report) Inconclusive(s string) {
 	p.mu.Lock()
